@@ -717,7 +717,7 @@ def _run_bigmesh(d, ps):
     mult[0] = 1
     if n % 2 == 0:
         mult[-1] = 1
-    radii = np.array([0.5, n / 4 + 0.25, n / 2 + 0.25, n], dtype=np.float64)  # squared radii are never integers: tie-free
+    radii = np.array([0.5, n / 8 + 0.25, n / 4 + 0.25, n], dtype=np.float64)  # squared radii are never integers: tie-free; the last bin holds > 2^24 modes
     cls = []
     for nt in d['nthreads']:
         if d['api'] == 'kppi':
